@@ -289,7 +289,20 @@ func checkK4(c *Ctx, jr *joinRoles) {
 							case "len", "cap":
 								return true
 							case "append":
-								return u.Call.Args[0] == v && isStoredToField(u, "join")
+								if u.Call.Args[0] == v {
+									return isStoredToField(u, "join")
+								}
+								// copied out: append(nil / empty fresh slice, B...)
+								if len(u.Call.Args) == 2 && u.Call.Args[1] == v {
+									if isNilConst(u.Call.Args[0]) {
+										return true
+									}
+									if ms, ok := u.Call.Args[0].(*ssa.MakeSlice); ok {
+										k, isK := constDuration(ms.Len)
+										return isK && k == 0
+									}
+								}
+								return false
 							}
 						}
 						if cal := p.Callee(u); cal != nil && cal.String() == "slices.Clone" {
